@@ -260,8 +260,9 @@ Qed.
 Theorem parse_master_no_panic : forall input, parse_master input <> Panic.
 Proof.
   intros. unfold parse_master. apply bind_np; [apply tag_np|]. intros rest _.
+  unfold parse_master_items.
   apply bind_np; [apply mrun_lines_np; intros r Hin; eapply items_np; exact Hin|].
-  intros s _. match goal with |- (if ?c then _ else _) <> Panic => destruct c end; discriminate.
+  intros s _. unfold finish_master. match goal with |- (if ?c then _ else _) <> Panic => destruct c end; discriminate.
 Qed.
 
 (* the attribute tokenizer terminates with fuel to spare: each step consumes at least the
